@@ -519,6 +519,14 @@ def classes():
                         taps.emit("first_attempt", event=self, refused=True, exc=e)
                 return base.setup(self, good, *args, **kwargs)
 
+        if base.__name__ == "TradingHaltRule":
+            # ... and, like a user class that keeps statistics, it re-defines ONE of the two handlers (delegating to the
+            # bundled one) and inherits the other
+            def hooked_after_execution(self, simulator, execution_log):
+                taps.hits["user_rule_handler_delegating_to_the_bundled_one"] += 1
+                return base.hooked_after_execution(self, simulator, execution_log)
+
+            Retry.hooked_after_execution = hooked_after_execution
         Retry.__name__ = Retry.__qualname__ = "Retry" + base.__name__
         return Retry
 
